@@ -1,6 +1,6 @@
 """pyvc.builtins_impl -- builtins and builtin-type methods on interpreter values."""
 from __future__ import annotations
-from .core import tid
+from .core import tid, forall
 import builtins
 import types
 from .core import (z3, PyVal, A, C, VABSENT, VNONE, StringSort, IntSort, BoolSort, SeqPV, EMPTY_VALS, lift, lower,
@@ -128,6 +128,14 @@ def dict_get(interp, d, k, default=None, missing_raises=False):
     kt = z3.StringVal(k) if isinstance(k, str) else k
     sel = simp(z3.Select(d.vals, kt))
     present = present_term(interp, d, kt)
+    if not missing_raises and not z3.is_true(present) and not z3.is_false(present) and head_tag(sel) != "vobj":
+        # d.get(k, default) as one term (no fork) when the default is a plain value
+        try:
+            dt = interp.term_of(default) if not isinstance(default, (HObj, Foreign)) else None
+        except Unsupported:
+            dt = None
+        if dt is not None and not isinstance(default, (HDict, HList, HSet)):
+            return value_from_term(interp, z3.If(present, sel, dt))
     if interp.ctx.branch(present):
         return value_from_term(interp, sel)
     if missing_raises:
@@ -259,8 +267,13 @@ def getitem(interp, obj, key):
             interp.raise_(TypeError, "list indices must be integers")
         it = interp.int_term(key)
         ln = z3.Length(obj.seq)
+        from .core import Nth
+        from .loops import nth_bridge
         if interp.ctx.branch(z3.And(it >= 0, it < ln)):
-            return value_from_term(interp, obj.seq[it])
+            if z3.is_int_value(simp(it)):
+                return value_from_term(interp, obj.seq[it])
+            nth_bridge(interp.ctx, obj.seq)
+            return value_from_term(interp, Nth(obj.seq, it))
         if interp.ctx.branch(z3.And(it < 0, it >= -ln)):
             return value_from_term(interp, obj.seq[ln + it])
         interp.raise_(IndexError, "list index out of range")
@@ -462,7 +475,7 @@ def dict_update(interp, d, other, fresh_target=False):
     newn = ctx.fresh("updn", IntSort)
     k = z3.Const("k!upd", StringSort)
     ov = z3.Select(other.vals, k)
-    ctx.axiom(z3.ForAll([k], z3.Select(newvals, k) == z3.If(ov != VABSENT, ov, z3.Select(d.vals, k)),
+    ctx.axiom(forall([k], z3.Select(newvals, k) == z3.If(ov != VABSENT, ov, z3.Select(d.vals, k)),
                         patterns=[z3.Select(newvals, k)]), "dict.update semantics (pointwise override)")
     ctx.axiom(z3.And(newn >= d.n, newn >= other.n, newn <= d.n + other.n), "dict.update size bounds")
     d.vals = newvals
@@ -518,8 +531,8 @@ def set_difference(interp, a, b):
     ctx = interp.ctx
     r = ctx.fresh("setdiff", ArrSB)
     k = z3.Const("k!sd", StringSort)
-    ctx.axiom(z3.ForAll([k], z3.Select(r, k) == z3.And(z3.Select(pa, k), z3.Not(z3.Select(pb, k))),
-                        patterns=[z3.Select(r, k)]), "set difference semantics")
+    ctx.axiom(forall([k], z3.Select(r, k) == z3.And(z3.Select(pa, k), z3.Not(z3.Select(pb, k))),
+                        patterns=[z3.Select(r, k), z3.Select(pa, k)]), "set difference semantics")
     return HSet(pred=r)
 
 
@@ -534,8 +547,8 @@ def set_union(interp, a, b):
     ctx = interp.ctx
     r = ctx.fresh("setunion", ArrSB)
     k = z3.Const("k!su", StringSort)
-    ctx.axiom(z3.ForAll([k], z3.Select(r, k) == z3.Or(z3.Select(pa, k), z3.Select(pb, k)),
-                        patterns=[z3.Select(r, k)]), "set union semantics")
+    ctx.axiom(forall([k], z3.Select(r, k) == z3.Or(z3.Select(pa, k), z3.Select(pb, k)),
+                        patterns=[z3.Select(r, k), z3.Select(pa, k), z3.Select(pb, k)]), "set union semantics")
     return HSet(pred=r)
 
 
@@ -546,8 +559,8 @@ def keys_pred(interp, d):
     ctx = interp.ctx
     r = ctx.fresh("keys", ArrSB)
     k = z3.Const("k!ks", StringSort)
-    ctx.axiom(z3.ForAll([k], z3.Select(r, k) == (z3.Select(d.vals, k) != VABSENT),
-                        patterns=[z3.Select(r, k)]), "dict.keys() as a set")
+    ctx.axiom(forall([k], z3.Select(r, k) == (z3.Select(d.vals, k) != VABSENT),
+                        patterns=[z3.Select(r, k), z3.Select(d.vals, k)]), "dict.keys() as a set")
     return HSet(pred=r)
 
 
@@ -1153,7 +1166,7 @@ def set_method(interp, s, name, args, kwargs):
         other = b_set(interp, args[0])
         pa, pb = set_to_pred(interp, s), set_to_pred(interp, other)
         k = z3.Const("k!ss", StringSort)
-        return boolval(interp, z3.ForAll([k], z3.Implies(z3.Select(pa, k), z3.Select(pb, k))))
+        return boolval(interp, forall([k], z3.Implies(z3.Select(pa, k), z3.Select(pb, k))))
     if name == "__contains__":
         return boolval(interp, contains(interp, s, args[0]))
     raise Unsupported("set method %s" % name)
